@@ -236,8 +236,18 @@ class Run:
         elif kind == "services":
             p, ss = op[1], op[2]
             svc = [SERVICES[s] for s in ss]
-            # the parameter is annotated Iterable: a list, or (4th element set) a one-shot iterator
-            self.net.discover_services(self.subject(p, []), iter(svc) if len(op) > 3 and op[3] else svc)
+            # the parameter is annotated Iterable: a list, (4th element 1) a one-shot iterator, or (4th element 2) a
+            # set object that the caller keeps and passes again for other peers with the same services
+            how = op[3] if len(op) > 3 else 0
+            if how == 2:
+                if not hasattr(self, "caller_sets"):
+                    self.caller_sets = {}
+                arg = self.caller_sets.setdefault(tuple(sorted(ss)), set(svc))
+                # what is advertised is what the set holds at the time of the call (whoever changed it)
+                ss = sorted(SERVICES.index(x) for x in arg)
+            else:
+                arg = iter(svc) if how else svc
+            self.net.discover_services(self.subject(p, []), arg)
             self.model.advertise(p, ss)
         elif kind == "remove_peer":
             p = op[1]
@@ -556,6 +566,32 @@ FOCUS = [
 ]
 
 
+# a third one: two peers advertise through set objects the caller keeps (and passes again), then one advertises more
+SHARED = [
+    ["services", 0, [0], 2], ["services", 1, [0], 2], ["services", 0, [1], 2], ["services", 1, [1]],
+    ["add", 0, [0]], ["add", 1, [1]], ["discover", 0, [0], 2, 0, 0], ["remove_peer", 0], ["observe", 0],
+]
+
+
+def _shared_shard(ctx: Ctx, shard: int, nshards: int, depth: int) -> None:
+    n = len(SHARED)
+    k = 0
+    for d in range(2, depth + 1):
+        for word in itertools.product(range(n), repeat=d):
+            if any(word[i] == word[i + 1] for i in range(d - 1)) or word[-1] == n - 1 or \
+                    not any(w in (0, 1, 2) for w in word):
+                continue
+            k += 1
+            if k % nshards != shard:
+                continue
+            for config in EX_CONFIGS:
+                try:
+                    execute(ctx, config, [SHARED[i] for i in word], final_order=k % 3)
+                except Violation as v:
+                    ctx.violation(v)
+    ctx.note("shared_depth", depth)
+
+
 def _focus_shard(ctx: Ctx, shard: int, nshards: int, depth: int) -> None:
     n = len(FOCUS)
     k = 0
@@ -593,6 +629,7 @@ def _strategies():
         st.tuples(st.just("discover"), peer, addrs1, addr, st.one_of(st.none(), svc), st.integers(0, 1)).map(list),
         st.tuples(st.just("services"), peer, st.lists(svc, min_size=1, max_size=2, unique=True)).map(list),
         st.tuples(st.just("services"), peer, st.lists(svc, min_size=1, max_size=2, unique=True), st.just(1)).map(list),
+        st.tuples(st.just("services"), peer, st.lists(svc, min_size=1, max_size=2, unique=True), st.just(2)).map(list),
         st.tuples(st.just("remove_peer"), peer).map(list),
         st.tuples(st.just("remove_peer"), peer, addrs).map(list),
         st.tuples(st.just("remove_peer"), peer, st.none() | addrs, st.just(1)).map(list),
@@ -624,6 +661,7 @@ def run(ctx: Ctx) -> None:
         depth = 6
     shard_run(ctx, _exhaustive_shard, extra=(depth,))
     shard_run(ctx, _focus_shard, extra=(6 if ctx.quick else 7,))
+    shard_run(ctx, _shared_shard, extra=(5 if ctx.quick else 6,))
     shard_run(ctx, _random_shard, extra=(1500 if ctx.quick else 20000,))
     ctx.note("alphabet", ALPHABET)
 
